@@ -296,7 +296,16 @@ func (w *World) Verify(c *Contract) (res *TargetResult) {
 		x.obls[len(x.obls)-1].Detail, x.obls[len(x.obls)-1].Clause = e.Text, e
 		x.obls[len(x.obls)-1].Group = fmt.Sprintf("ensures%d", e.N)
 	}
-	x.frameObligations(f, c, entry, final, args, retReach, allProps)
+	if c.SplitReturns && len(f.rets) > 1 {
+		// the frame condition is proved per return statement, each against its own heap
+		for i, r := range f.rets {
+			x.frameSuffix = fmt.Sprintf(".ret%d", i)
+			x.frameObligations(f, c, entry, r.heap, args, r.reach, allProps)
+		}
+		x.frameSuffix = ""
+	} else {
+		x.frameObligations(f, c, entry, final, args, retReach, allProps)
+	}
 	// vacuity: the preconditions admit an execution that returns
 	x.oblige("cover", "returns", allProps, retReach, fn, fn.Pos())
 	x.obls[len(x.obls)-1].Cover = true
@@ -385,6 +394,28 @@ func (x *Exec) frameObligations(f *frame, c *Contract, entry, final *Heap, args 
 		if et == fe.term {
 			continue
 		}
+		// syntactic fast path: the final array is the entry array with stores only at
+		// objects the function allocated itself or at objects its modifies clause lists
+		if fe.base == et {
+			okAll := true
+			for _, r := range fe.refs {
+				if isAllocRef(r) {
+					continue
+				}
+				found := false
+				for _, a := range allowed[k] {
+					if a.ref == r && (fe.idx == "" || a.all || a.idx == "") {
+						found = true
+					}
+				}
+				if !found {
+					okAll = false
+				}
+			}
+			if okAll {
+				continue
+			}
+		}
 		r := x.g.Const("frame.r", SortRef)
 		var cond string
 		if fe.idx == "" {
@@ -407,6 +438,7 @@ func (x *Exec) frameObligations(f *frame, c *Contract, entry, final *Heap, args 
 			cond = and(append([]string{retReach, "(bvult " + r + " " + refLit(AllocBase) + ")",
 				not(eq("(select (select "+fe.term+" "+r+") "+i+")", "(select (select "+et+" "+r+") "+i+")"))}, ex...)...)
 		}
-		x.oblige("frame", k, props, cond, f.fn, token.NoPos)
+		x.oblige("frame", k+x.frameSuffix, props, cond, f.fn, token.NoPos)
+		x.obls[len(x.obls)-1].Group = "frame:" + k
 	}
 }
